@@ -61,3 +61,62 @@ register(fn_contract(
     options={"assumptions": ["A-rng (pyvc/ghosts.py)", "A-order: k*G != O for 1 <= k < n (the order of G is n); without it sign's tuple unpacking could raise TypeError"],
              "bounded_skip_native": True},
 ))
+
+
+def _valid_sigs(rng):
+    """(r, s, Q, z) satisfying the verification equation, built with the spec's own arithmetic; digests incl. >= n."""
+    import spec
+    ec = spec.ec
+    d = rng.choice([1, 2, ec.N - 1, rng.randrange(1, ec.N)])
+    k = rng.choice([1, 2, ec.N - 1, rng.randrange(1, ec.N)])
+    z = rng.choice([0, 1, ec.N - 1, ec.N, ec.N + 1, 2**256 - 1, rng.getrandbits(256)])
+    R = ec.ec_mul(k, ec.G)
+    r = R[0] % ec.N
+    s = (z + r * d) * pow(k, -1, ec.N) % ec.N
+    if r == 0 or s == 0:
+        return _valid_sigs(rng)
+    if rng.random() < 0.5:
+        s = ec.N - s
+    q = ec.ec_mul(d, ec.G)
+    kind = rng.random()
+    if kind < 0.25:
+        s = (s + 1) % ec.N or 1          # invalid
+    elif kind < 0.35:
+        r = rng.choice([0, ec.N, r + ec.N])
+    return {"r": r, "s": s, "point": q, "digest": z}
+
+
+register(fn_contract(
+    "C02.verify", ["C02", "C01"], f"{EC}.verify", {"r": "int", "s": "int", "point": "point", "digest": "int"},
+    requires=["spec.ec.on_curve(point[0], point[1])", "0 <= digest < 2**256"],
+    cases=[Case("valid", when="spec.ec.ecdsa_valid(r, s, point, digest)", ensures={"accepts": "result is True"}),
+           Case("invalid", when="not spec.ec.ecdsa_valid(r, s, point, digest)", raises=(AssertionError, TypeError, ValueError))],
+    modular=[SMUL, PADD], returns="bool",
+    options={"native_gen": _valid_sigs, "feas_ms": 250,
+             "assumptions": ["A-prime-n + lemma fermat_inv: pow(s, n-2, n) is the inverse of s modulo the prime n (spec.ec.inv_n)",
+                             "assumed contracts C03.point_scalar_mul.assumed / C03.point_add.assumed (group operations)"]},
+    witnesses=[],
+))
+
+# ---- DER
+register(fn_contract(
+    "C01.der_encode_sig", ["C01", "C02"], "bits.utils.der_encode_sig", {"r": "int", "s": "int"},
+    requires=[f"1 <= r < {N}", f"1 <= s < {N}"],
+    cases=[Case("ok", ensures={"der": "result == spec.der.der_sig(r, s)", "bounded": "8 <= len(result) <= 72"})],
+    returns="bytes",
+    witnesses=[{"r": 1, "s": 1}, {"r": 5, "s": 0x80 << 240}, {"r": 2**255, "s": 2**255 + 1}, {"r": 127, "s": 128}, {"r": 0x7FFF, "s": 0x8000}],
+))
+register(Theorem(
+    "C01.der.roundtrip", ["C01", "C02"], params={"r": "int", "s": "int"}, requires=[f"1 <= r < {N}", f"1 <= s < {N}"],
+    body="bits.utils.der_decode_sig(bits.utils.der_encode_sig(r, s))",
+    cases=[Case("ok", ensures={"same": "result == (r, s)"})],
+    fuc=["bits.utils.der_encode_sig", "bits.utils.der_decode_sig", "bits.pem.encode_parsed_asn1", "bits.pem.parse_asn1"],
+    witnesses=[{"r": 1, "s": 1}, {"r": 5, "s": 0x80 << 240}, {"r": 2**255, "s": 2**255 + 1}],
+))
+register(Theorem(
+    "C01.der.strict", ["C01", "C02"], params={"r": "int", "s": "int"}, requires=[f"1 <= r < {N}", f"1 <= s < {N}"],
+    body="spec.der.strict_der(spec.der.der_sig(r, s))",
+    cases=[Case("ok", ensures={"bip66": "result is True"})],
+    note="the spec encoding satisfies the BIP66 predicate for every (r, s) in range; with C01.der_encode_sig this makes the library's encoding strict",
+    witnesses=[{"r": 1, "s": 1}, {"r": 2**255, "s": 2**255 + 1}],
+))
